@@ -614,7 +614,7 @@ fn main() {
     let f0 = write_frontier(&scratch, 0, &frontier, 1);
     c.run_space("scripts", &f0);
     // epochs: (max sequence length, cap on states expanded)
-    let plan: Vec<(usize, usize)> = c.tier.pick(vec![(2, usize::MAX), (1, 400)], vec![(3, usize::MAX), (2, 600), (1, 4000)]);
+    let plan: Vec<(usize, usize)> = c.tier.pick(vec![(2, usize::MAX), (1, 400)], vec![(2, usize::MAX), (2, 300), (1, 3000)]);
     let mut total_states = n_init as u64;
     let mut depth_ops = 0;
     let mut samples = vec![];
